@@ -9,8 +9,15 @@ na_path = os.path.join(V, "checks", "not_applicable.json")
 if os.path.exists(na_path):
     NA = json.load(open(na_path))
 checks, na, engines = [], [], {}
+PENDING = {}
+pp = os.path.join(V, "checks", "pending.json")
+if os.path.exists(pp):
+    PENDING = json.load(open(pp))
 for p in props:
     pid = p["id"]
+    if pid in PENDING:
+        na.append({"property_id": pid, "reason": "check temporarily unregistered: " + PENDING[pid]})
+        continue
     if not os.path.exists(os.path.join(V, "checks", pid + ".py")):
         na.append({"property_id": pid, "reason": NA.get(pid, "no check registered yet: the Lean model and its tie for this property are not built in this revision")})
         continue
